@@ -554,3 +554,66 @@ example :
     (runQuery big r.w).toOption.map (·.2) = some 3 ∧ big r.w.txn = 1 := by decide
 
 end PonyVerif.Props.C10
+
+/-! ## Part 6: lookups that the cache answers, with ADDITIONAL criteria on other attributes (`E.get(id=1, rank=None)`,
+    `E.exists(code='A', owner=x)`): the object found is checked against every criterion - a value, None (`.null`), a reference, a
+    None reference alike (session model) -/
+
+namespace PonyVerif.Props.C10
+open PonyVerif.Model.SessStore PonyVerif.Gen.FlushQueryCache
+
+/-- the criteria of a keyword lookup on the other attributes: column ↦ required cell (`.null` for `attr=None`) -/
+abbrev Criteria := List (Nat × Cell)
+
+def meets (row : Nat → Cell) (crit : Criteria) : Bool := crit.all fun c => row c.1 = c.2
+
+/-- what the database answers to `SELECT .. WHERE pk = k AND col = v AND ..` -/
+def queryWhere (d : Db) (k : Key) (crit : Criteria) : Outcome :=
+  match queryDb d k with
+  | .found row => if meets row crit then .found row else .notFound
+  | o => o
+
+/-- `_find_one_` with additional criteria: the lookup by key (cache first, else auto-flush + SELECT), then the verification loop of
+    `_find_in_cache_` - `if val != attr.__get__(obj): throw ObjectNotFound` for EVERY criterion, `None` included -/
+def lookupWhere (w : World) (k : Key) (crit : Criteria) : Outcome :=
+  match (step w (.load k)).2.1 with
+  | .found row => if meets row crit then .found row else .notFound
+  | o => o
+
+/-- `C10_lookup_with_criteria`: whatever the session did to the other attributes - assigned a value over None, None over a value,
+    a reference, dropped a reference; flushed or not - a keyword lookup with additional criteria returns what the database answers
+    after a flush: the object iff EVERY criterion equals the value the program has given the attribute (`None` criteria are
+    compared like any other), else ObjectNotFound / None / False. -/
+theorem C10_lookup_with_criteria (w : World) (h : Inv w) (k : Key) (crit : Criteria) :
+    lookupWhere w k crit = queryWhere (abs w) k crit := by
+  unfold lookupWhere queryWhere
+  rw [C10_lookup_sees_changes w h k]
+
+/-- for ALL histories of a well-formed program -/
+theorem C10_lookups_with_criteria_see_own_changes (d : Db) (ops : List Op) (hv : ValidFrom ⟨World.init d, Spec.init d⟩ ops)
+    (k : Key) (crit : Criteria) :
+    let r := runBoth ⟨World.init d, Spec.init d⟩ ops
+    lookupWhere r.w k crit = queryWhere r.s.working k crit := by
+  have hs := run_sim ops _ (sim_init d) hv
+  show lookupWhere _ k crit = queryWhere _ k crit
+  rw [← hs.view]; exact C10_lookup_with_criteria _ hs.inv k crit
+
+/-- skipping `None` criteria in the verification (the seeded change c10-4) answers wrongly: the object whose column 0 was set from
+    NULL to 7 (not flushed) is still found by `get(pk, col0=None)` -/
+def lookupWhereSkippingNone (w : World) (k : Key) (crit : Criteria) : Outcome :=
+  lookupWhere w k (crit.filter fun c => c.2 ≠ .null)
+
+theorem C10_lookup_skipping_none_criteria_is_wrong :
+    let ops : List Op := [.create ⟨0, 1⟩ [.null], .endOk, .load ⟨0, 1⟩, .set ⟨0, 1⟩ 0 (.int 7)]
+    let r := runBoth ⟨World.init Db.empty, Spec.init Db.empty⟩ ops
+    ValidFrom ⟨World.init Db.empty, Spec.init Db.empty⟩ ops ∧
+    isNotFound (queryWhere r.s.working ⟨0, 1⟩ [(0, .null)]) = true ∧
+    isNotFound (lookupWhere r.w ⟨0, 1⟩ [(0, .null)]) = true ∧
+    isNotFound (lookupWhereSkippingNone r.w ⟨0, 1⟩ [(0, .null)]) = false := by decide
+
+/-- the verification loop of `EntityMeta._find_in_cache_` as it is in the source NOW (regenerated on every run): one statement,
+    the comparison of EVERY criterion with the object's current value - no criterion is skipped -/
+theorem C10_bridge_cache_lookup_verifies_all_criteria :
+    cacheVerify = ["if val != attr.__get__(obj): ;     throw(ObjectNotFound, entity, pkval)"] := by decide
+
+end PonyVerif.Props.C10
